@@ -11,15 +11,18 @@ RUN_MODULE = "Run.Run_C09"
 GEN_FILES = ["Gen_types.v", "Gen_lint.v"]
 RULE = ("unroll: random lint-clean DAGs (1..4 inputs, 1..6 gates of all eight types, constants) x injective pairings of outputs to inputs "
         "with 0..3 state bits (random ones, and ALL pairings of small circuits), state outputs that are themselves primary inputs, "
-        "n in 1..4 (quick) / 1..6 (thorough), free inputs of the result <= 7 (quick) / 10 (thorough) so that all input sequences are enumerated; "
+        "n in 1..4 (quick) / 1..6 (thorough), free inputs of the result <= 6 (quick) / 10 (thorough) so that all input sequences are enumerated; "
         "sequential_unroll: DAGs with 1..3 spliced flops of one blackbox type (pins clk,d[,rst] -> q[,qn]), state feedback, unloaded Q, "
-        "x all of add_flop_outputs, initial_values (None,'0','1','x',dict), remove_unloaded, ignore_pins; plus rejected calls (n=0, "
+        "instance names where one extends another by '_'+char (acc/acc_HI, cnt/cnt_LSB, r/r_EN) with upper/lower-case port names, "
+        "x all of add_flop_outputs, initial_values (None,'0','1','x',dict), remove_unloaded, ignore_pins; every sequential circuit is "
+        "unrolled TWICE on the same object (instances sharing one BlackBox object) and graph + registry are dumped by content around "
+        "each call; plus rejected calls (n=0, "
         "unknown state io, blackboxes) and name-stress circuits; non-trivial = at least one gate and n >= 1; distinct = canonical input hash")
 EXPLANATION = ("models of unroll / sequential_unroll through the API model compared with the returned graph and io map; oracle simulates the "
                "sequential machine step by step for every valuation of the free inputs of the unrolled circuit")
-SHARD = 8
+SHARD = 6
 HASHSEEDS = {"quick": [0, 1], "thorough": [0, 1]}
-MAX_FREE = {"quick": 7, "thorough": 10}
+MAX_FREE = {"quick": 6, "thorough": 10}
 
 
 def base(rng, n_in, n_gate, p_const=0.12):
@@ -98,13 +101,34 @@ def gen_unroll_bad(rng, tier):
     return c
 
 
-def add_flops(rng, d, k, extra_pins):
-    """splice k flops (pins clk, d [, rst] -> q [, qn]) into the DAG; q buffers feed the loads of the chosen node"""
-    for i in range(k):
-        inst = f"ff{i}"
+NAME_FAMILIES = [("acc", "acc_HI"), ("cnt", "cnt_LSB"), ("r", "r_EN"), ("cnt", "cnt_hi"), ("q", "q_B")]
+
+
+def splice_flop(rng, d, inst, on, dp, qp):
+    """lib.add_flop with free instance and port names: pins clk, <dp> -> <qp>; the q buffer feeds the loads of `on`"""
+    d = json.loads(json.dumps(d))
+    names = [n[0] for n in d["nodes"]]
+    q = f"{inst}_qbuf"
+    for n in d["nodes"]:
+        n[3] = sorted(q if f == on else f for f in n[3])
+    if "clk" not in names:
+        d["nodes"].append(["clk", "input", False, []])
+    d["nodes"].append([f"{inst}.{dp}", "bb_input", False, [on]])
+    d["nodes"].append([f"{inst}.clk", "bb_input", False, ["clk"]])
+    d["nodes"].append([f"{inst}.{qp}", "bb_output", False, []])
+    d["nodes"].append([q, "buf", False, [f"{inst}.{qp}"]])
+    if not any(q in n[3] for n in d["nodes"]):
+        d["nodes"][-1][2] = True
+    d["bbs"] = d.get("bbs", []) + [[inst, "ff", sorted(["clk", dp]), [qp]]]
+    return d
+
+
+def add_flops(rng, d, insts, extra_pins, dp="d", qp="q"):
+    """splice one flop per instance name into the DAG; q buffers feed the loads of the chosen node, and often the cone of D"""
+    for inst in insts:
         cand = [n[0] for n in d["nodes"] if "." not in n[0] and n[1] not in ("0", "1") and n[0] != "clk" and n[0] != "rst"]
         on = rng.choice(cand)
-        d = lib.add_flop(rng, d, inst=inst, on=on)
+        d = splice_flop(rng, d, inst, on, dp, qp)
         q = f"{inst}_qbuf"
         # state feedback: let a gate in the cone of D read Q as well
         cone, todo = set(), [on]
@@ -137,8 +161,17 @@ def gen_seq(rng, tier):
     d = base(rng, n_in, rng.randint(1, 5), p_const=0.08)
     k = rng.choice([1, 1, 2, 2, 3])
     extra = rng.random() < 0.25
-    d = add_flops(rng, d, k, extra)
-    kind = f"seq:flops={k}"
+    dp, qp = "d", "q"
+    insts = [f"ff{i}" for i in range(k)]
+    if rng.random() < 0.4:
+        # instance names where one extends the other by "_" + a character between the port initials, upper/lower-case ports
+        fam = list(rng.choice(NAME_FAMILIES))
+        dp, qp = rng.choice([("D", "Q"), ("d", "q")])
+        insts = fam + (["ff2"] if rng.random() < 0.3 else [])
+        rng.shuffle(insts)
+        k = len(insts)
+    d = add_flops(rng, d, insts, extra, dp, qp)
+    kind = f"seq:flops={k}" + (":prefix-names" if insts[0][:2] != "ff" or k > 1 and insts[1][:2] != "ff" else "")
     if rng.random() < 0.15:
         # a flop whose Q drives nothing
         inst = rng.choice(d["bbs"])[0]
@@ -151,26 +184,41 @@ def gen_seq(rng, tier):
     ign = rng.choice([None, "clk", ["clk"], ["clk", "rst"], "rst", ["qn"]] if extra else [None, "clk", ["clk"]])
     iv = rng.choice([None, "0", "1", "dict", "dict", "x"])
     if iv == "dict":
-        insts = [b[0] for b in d["bbs"]]
-        iv = {b: rng.choice(["0", "1", "1", "0", "x"]) for b in rng.sample(insts, rng.randint(1, len(insts)))}
-    ins = [n[0] for n in d["nodes"] if n[1] == "input"]
+        insts_ = [b[0] for b in d["bbs"]]
+        iv = {b: rng.choice(["0", "1", "1", "0", "x"]) for b in rng.sample(insts_, rng.randint(1, len(insts_)))}
+    ru = rng.random() < 0.6 or "prefix-names" in kind
+    # clk / rst only drive flop pins: with remove_unloaded they do not become per-step inputs
+    ins = [n[0] for n in d["nodes"] if n[1] == "input" and not (ru and n[0] in ("clk", "rst"))]
     hi = 3 if tier == "quick" else 4
     ns = [n for n in range(1, hi + 1) if k + n * len(ins) <= MAX_FREE[tier]]
+    if "prefix-names" in kind and [n for n in ns if n >= 2]:
+        ns = [n for n in ns if n >= 2]
     n = rng.choice(ns) if ns else 1
-    return {"fn": "sequential_unroll", "circuit": lib.shuffle_nodes(rng, d), "n": n, "d": "d", "q": "q", "ign": ign,
-            "afo": rng.random() < 0.5, "iv": iv, "ru": rng.random() < 0.6, "prefix": "cg_unroll", "kind": kind}
+    n2 = 1 if n > 1 else (2 if 2 in ns else 1)          # the second call on the same object stays inside the enumeration budget
+    once = tier == "quick" and rng.random() < 0.6       # quick tier: the second call on 40 % of the circuits (every call is dump-guarded)
+    return {"fn": "sequential_unroll", "circuit": lib.shuffle_nodes(rng, d), "n": n, "n2": n2, "d": dp, "q": qp, "ign": ign,
+            "afo": rng.random() < 0.5, "iv": iv, "ru": ru, "prefix": "cg_unroll", "kind": kind, "once": once}
+
+
+def worst_case_n(c0, tier):
+    """largest n (<= the case's n) whose free inputs stay inside the budget for EVERY flag combination (clk / rst kept as inputs)"""
+    k = len(c0["circuit"]["bbs"])
+    ins = [x for x in c0["circuit"]["nodes"] if x[1] == "input"]
+    ns = [n for n in range(1, c0["n"] + 1) if k + n * len(ins) <= MAX_FREE[tier]]
+    return max(ns) if ns else 1
 
 
 def gen_seq_flags(rng, tier):
     """one sequential circuit under every flag combination"""
     c0 = gen_seq(rng, tier)
+    c0["n"] = worst_case_n(c0, tier)
     insts = [b[0] for b in c0["circuit"]["bbs"]]
     out = []
     for afo in (False, True):
-        for iv in (None, "0", "1", {insts[0]: "1"}):
+        for iv in ((None, "0", "1", {insts[0]: "1"}) if tier != "quick" else (None, "1", {insts[0]: "0"})):
             for ru in (False, True):
                 c = json.loads(json.dumps(c0))
-                c.update(afo=afo, iv=iv, ru=ru, kind="seq-flags")
+                c.update(afo=afo, iv=iv, ru=ru, kind="seq-flags", once=True)
                 out.append(c)
     return out
 
@@ -180,19 +228,20 @@ def gen_seq_dict_orders(rng, tier):
     c0 = gen_seq(rng, tier)
     while len(c0["circuit"]["bbs"]) < 2:
         c0 = gen_seq(rng, tier)
+    c0["n"] = worst_case_n(c0, tier)
     insts = [b[0] for b in c0["circuit"]["bbs"]]
     out = []
     for perm in list(itertools.permutations(insts))[:4]:
         vals = ["0", "1", "1"][:len(perm)] if rng.random() < 0.5 else ["1", "0", "0"][:len(perm)]
         for sub in (perm, perm[:-1]):
             c = json.loads(json.dumps(c0))
-            c.update(iv={k: v for k, v in zip(sub, vals)}, kind="seq-dict-order")
+            c.update(iv={k: v for k, v in zip(sub, vals)}, kind="seq-dict-order", once=True)
             out.append(c)
     return out
 
 
 def generate(rng, tier):
-    nu, na, ns, nf = (70, 2, 45, 1) if tier == "quick" else (200, 6, 120, 4)
+    nu, na, ns, nf = (54, 2, 26, 1) if tier == "quick" else (200, 6, 100, 3)
     sc = float(os.environ.get("VERIF_SCALE", "1"))      # <1 only for mutant trials on a loaded machine
     nu, na, ns, nf = max(8, int(nu * sc)), max(1, int(na * sc)), max(8, int(ns * sc)), max(1, int(nf * sc))
     out = [gen_unroll(rng, tier) for _ in range(nu)]
@@ -206,10 +255,7 @@ def generate(rng, tier):
     return out
 
 
-def impl(case):
-    import circuitgraph as cg
-    c = lib.build_circuit(case["circuit"])
-    before = lib.dump_circuit(c)
+def _call(cg, c, case):
     try:
         if case["fn"] == "unroll":
             uc, m = cg.tx.unroll(c, case["n"], {k: v for k, v in case["sio"]}, prefix=case["prefix"])
@@ -217,8 +263,42 @@ def impl(case):
             uc, m = cg.tx.sequential_unroll(c, case["n"], case["d"], case["q"], ignore_pins=case["ign"], add_flop_outputs=case["afo"],
                                             initial_values=case["iv"], remove_unloaded=case["ru"], prefix=case["prefix"])
     except Exception as e:
-        return {"exc": type(e).__name__, "msg": str(e)[:120], "unchanged": lib.dump_circuit(c) == before}
-    return {"out": lib.dump_circuit(uc), "io_map": sorted([k, list(v)] for k, v in m.items()), "unchanged": lib.dump_circuit(c) == before}
+        return {"exc": type(e).__name__, "msg": str(e)[:120]}
+    return {"out": lib.dump_circuit(uc), "io_map": sorted([k, list(v)] for k, v in m.items())}
+
+
+def second_call(case):
+    """the parameters of the second call on the same circuit object: another n, other flags"""
+    c2 = dict(case)
+    c2["n"] = case.get("n2", 1)
+    c2["afo"] = not case["afo"]
+    c2["iv"] = "0" if case["iv"] is None else None
+    return c2
+
+
+def impl(case):
+    import circuitgraph as cg
+    c = lib.build_circuit(case["circuit"])
+    if case["fn"] == "unroll":
+        before = lib.dump_circuit(c)
+        obs = _call(cg, c, case)
+        obs["unchanged"] = lib.dump_circuit(c) == before
+        return obs
+    # flop instances of one type share ONE BlackBox object, as in circuits built through add_blackbox / the readers
+    shared = {}
+    for inst, bb in list(c.blackboxes.items()):
+        key = (bb.name, tuple(sorted(bb.inputs())), tuple(sorted(bb.outputs())))
+        c.blackboxes[inst] = shared.setdefault(key, bb)
+    before = lib.dump_circuit(c)          # graph and registry BY CONTENT (name, sorted inputs, sorted outputs)
+    first = _call(cg, c, case)
+    mid = lib.dump_circuit(c)
+    if case.get("once"):
+        first["unchanged"] = before == mid
+        return {"first": first, "second": None, "unchanged": before == mid, "registry": None}
+    second = _call(cg, c, second_call(case))
+    after = lib.dump_circuit(c)
+    return {"first": first, "second": second, "unchanged": before == mid == after,
+            "registry": [before["bbs"], mid["bbs"], after["bbs"]] if not before == mid == after else None}
 
 
 def cobs(obs):
@@ -237,16 +317,25 @@ def civ(iv):
     return "(IvDict %s)" % cl("(%s,%s)" % (cs(k), cty(v)) for k, v in iv.items())
 
 
-def to_coq(case, obs):
-    if "out" in obs and len(obs["out"]["nodes"]) > 90:
-        return None
-    if case["fn"] == "unroll":
-        sio = cl("(%s,%s)" % (cs(k), cs(v)) for k, v in case["sio"])
-        return f"CUnroll {ccirc(case['circuit'])} {cnat(case['n'])} {sio} {cs(case['prefix'])} {cobs(obs)}"
+def cseq(case, obs):
     ign = case["ign"]
     ign = [] if not ign else [ign] if isinstance(ign, str) else ign
-    return (f"CSeq {ccirc(case['circuit'])} {cnat(case['n'])} {cs(case['d'])} {cs(case['q'])} {csl(ign)} {cb(case['afo'])} {civ(case['iv'])} "
-            f"{cb(case['ru'])} {cs(case['prefix'])} {cobs(obs)}")
+    return (f"(CSeq {ccirc(case['circuit'])} {cnat(case['n'])} {cs(case['d'])} {cs(case['q'])} {csl(ign)} {cb(case['afo'])} {civ(case['iv'])} "
+            f"{cb(case['ru'])} {cs(case['prefix'])} {cobs(obs)})")
+
+
+def to_coq(case, obs):
+    if case["fn"] == "unroll":
+        if "out" in obs and len(obs["out"]["nodes"]) > 90:
+            return None
+        sio = cl("(%s,%s)" % (cs(k), cs(v)) for k, v in case["sio"])
+        return f"CKeep (CUnroll {ccirc(case['circuit'])} {cnat(case['n'])} {sio} {cs(case['prefix'])} {cobs(obs)}) {cb(obs['unchanged'])}"
+    for o in (obs["first"], obs["second"]):
+        if o and "out" in o and len(o["out"]["nodes"]) > 90:
+            return None
+    if obs["second"] is None:
+        return f"CKeep {cseq(case, obs['first'])} {cb(obs['unchanged'])}"
+    return f"CTwice {cseq(case, obs['first'])} {cseq(second_call(case), obs['second'])} {cb(obs['unchanged'])}"
 
 
 def nontrivial(case, obs):
@@ -254,7 +343,10 @@ def nontrivial(case, obs):
 
 
 def classify(case, obs):
-    ks = [case["kind"], f"n={case['n']}", "raise:" + obs["exc"] if "exc" in obs else "ok"]
+    o1 = obs if case["fn"] == "unroll" else obs["first"]
+    ks = [case["kind"], f"n={case['n']}", "raise:" + o1["exc"] if "exc" in o1 else "ok"]
+    if not obs.get("unchanged", True):
+        ks.append("ARGUMENT-CHANGED")
     if case["fn"] == "unroll":
         ins = {n[0] for n in case["circuit"]["nodes"] if n[1] == "input"}
         if any(k in ins for k, _ in case["sio"]):
@@ -274,12 +366,15 @@ def mutate_case(rng, case):
 
 
 CLAIMED = True
-LEVEL_TEXT = ("Theorems (all closed acyclic circuits whose free nodes are the inputs, all n, all state pairings with distinct generated names): "
-              "every consistent valuation of the closed form of unroll's result carries at io_map[o][t] the value of running c for t+1 steps "
-              "(induction on the step; run = iterated evalc, proved to be the unique run), its inputs are exactly the step-0 state inputs and the "
-              "per-step copies of the other inputs, io_map[io][t] = <io>_<prefix>_<t>. That the API-level model equals the closed form, "
-              "lint-cleanliness of the result, and the whole sequential_unroll clause (every flag combination) are decided per case by the Coq "
-              "oracle on what the implementation returned: step-by-step simulation for every valuation of the free inputs.")
-LEVEL_NOTE = ("Trusted: Coq kernel + vm_compute, std++, harness. Models of unroll/sequential_unroll are tied to the code by correspondence on "
-              "the returned graph and io map. Guard: generated names (<io>_<prefix>_<t>, unrolled_<t>_*) do not collide with node names.")
+LEVEL_TEXT = ("Theorem C09_unroll (about the API-level model of tx.unroll, no per-case residue): inside the guards the model RETURNS a "
+              "lint-clean circuit and io map with io_map[o][t] = <o>_<prefix>_<t>, inputs = step-0 state inputs + per-step copies of the "
+              "other inputs, and every consistent valuation carries at io_map[o][t] the value of running c for t+1 steps (all n, all "
+              "pairings; induction on the step; model = closed form and totality proved through the API step lemmas). sequential_unroll: "
+              "proved that whatever the model returns simulates the stripped circuit cycle by cycle (graph = plain unrolling up to output "
+              "marks / step-0 constants); the step from the stripped circuit to the flop circuit, the output marks, the initial-value "
+              "types and the model returning are decided per case by the Coq oracle (step-by-step simulation over all free-input "
+              "valuations, every flag combination, two calls on one object, argument unchanged).")
+LEVEL_NOTE = ("Trusted: Coq kernel + vm_compute, std++, harness; models tied to the Python code by correspondence on the returned graph and "
+              "io map. Compose6.strip_blackboxes (C06's model) is reused. Guards: no bb-typed nodes, no empty/digit-leading names, no x "
+              "constants, dot-free prefix, generated names (<io>_<prefix>_<t>, unrolled_<t>_*) do not collide with node names.")
 TECHNIQUE = "Coq model through the proved API model + vm_compute correspondence + exhaustive step-by-step simulation oracle"
